@@ -257,11 +257,21 @@ class OnionWorld:
     PAYLOAD_HEAD = b"d1:ad2:id20:"      # bencoded DHT-looking packets pass every BT exit policy
     PAYLOAD_TAIL = b"e1:q4:ping1:t2:aa1:y1:qe"
 
-    def payload(self, p, size=0):
+    def payload(self, p, size=0, shape="raw"):
+        """shape: 'raw' (bencoded, BitTorrent-DHT-looking) | 'ipv8' (looks like a packet of some other IPv8 community) |
+        'tunnel' (carries the tunnel community's own prefix and an unassigned message number). The specification's
+        payloads are opaque: whatever the bytes look like, they arrive identical where the spec says they arrive."""
         body = b"%020d" % p
-        return self.PAYLOAD_HEAD + body + (b"1:x%d:" % size + b"z" * size if size else b"") + self.PAYLOAD_TAIL
+        inner = self.PAYLOAD_HEAD + body + (b"1:x%d:" % size + b"z" * size if size else b"") + self.PAYLOAD_TAIL
+        if shape == "ipv8":
+            return b"\x00\x02" + b"\x77" * 20 + b"\x01" + inner
+        if shape == "tunnel":
+            return bytes(self.ov[self.names[0]]._prefix) + b"\xfe" + inner
+        return inner
 
     def payload_id(self, data):
+        if len(data) >= 23 and data[:1] == b"\x00" and data[1:2] in (b"\x01", b"\x02"):
+            data = data[23:]
         if data.startswith(self.PAYLOAD_HEAD) and data.endswith(self.PAYLOAD_TAIL):
             try:
                 return int(data[len(self.PAYLOAD_HEAD):len(self.PAYLOAD_HEAD) + 20])
@@ -395,10 +405,11 @@ class OnionWorld:
         self.loop.call(ov.send_test_request, c, request_size, response_size)
         return self.log("SendTest", o=o, cid=spec_cid)
 
-    def send_e2e(self, o, spec_cid, p, size=0):
+    def send_e2e(self, o, spec_cid, p, size=0, shape="raw"):
         ov = self.ov[o]
         c = ov.circuits[self.real_cid(spec_cid)]
-        self.loop.call(ov.send_data, c.hop.address, c.circuit_id, ("2.2.2.2", 2000), ("0.0.0.0", 0), self.payload(p, size))
+        self.loop.call(ov.send_data, c.hop.address, c.circuit_id, ("2.2.2.2", 2000), ("0.0.0.0", 0),
+                       self.payload(p, size, shape))
         return self.log("SendE2E", o=o, cid=spec_cid, p=p)
 
     def rp_forge(self, rp, spec_cid):
